@@ -469,6 +469,9 @@ def run(ctx):
     r07_7_annotation_roundtrip(ctx)
     r07_8_annotation_inverse(ctx)
     r19_6_index_tuple_output_type(ctx)
+    from rules import c04 as _c04d
+
+    _c04d.r04_1_op_table(ctx)  # the decoding ops (extract_uint16/32/64, getbit, getbyte, extract ...) are available wherever the AVM has them (shared with C04)
     from rules import c06 as _c06, c04 as _c04
 
     _c06.r06_1_descriptors(ctx)  # static lengths / dynamic-ness the walkers rely on (shared with C06)
